@@ -324,6 +324,24 @@ message Card {
 package b.v1;
 message OnlyOld { string s = 1; }
 `,
+		// Java UTF8 validation of string fields changes in both directories (file option added in a/, removed in b/);
+		// the generic utf8 validation of the fields does not change
+		// (proto2: without the option Java does not validate; in proto3 it always does)
+		"a/v1/j.proto": `syntax = "proto2";
+package a.v1;
+message JavaA {
+  optional string s = 1;
+  optional int32 n = 2;
+}
+`,
+		"b/v1/j.proto": `syntax = "proto2";
+package b.v1;
+option java_string_check_utf8 = true;
+message JavaB {
+  optional string s = 1;
+  optional string t = 2;
+}
+`,
 		"c/v1/z.proto": `syntax = "proto3";
 package c.v1;
 message Zed {
@@ -360,6 +378,21 @@ message Keep {
 enum Kind {
   KIND_UNSPECIFIED = 0;
   KIND_A = 1;
+}
+`,
+		"a/v1/j.proto": `syntax = "proto2";
+package a.v1;
+option java_string_check_utf8 = true;
+message JavaA {
+  optional string s = 1;
+  optional int32 n = 2;
+}
+`,
+		"b/v1/j.proto": `syntax = "proto2";
+package b.v1;
+message JavaB {
+  optional string s = 1;
+  optional string t = 2;
 }
 `,
 		// Sib moved to a sibling file of the same directory
